@@ -1,5 +1,5 @@
 PROP = dict(
-        pkg="c05", level="sampled",
+        pkg="c05", level="exploration",
         rule="C05: generated histories of type-context operations checked against a structural model (normal form -> first pointer): sequential on 2..3 contexts, concurrent on one shared context, plus the named-chain union corner",
         assumptions=[
             "the harness's normal form, type order and type-value serialisation are written from docs/formats/zed.md (sections 2-3) and docs/formats/zng.md (section 4); where zed.md does not settle the relative order of two named types (same ultimate underlying type, different intermediate names) unions containing such a pair are excluded from TestHistory/TestConcurrent and examined by TestNamedChainUnion only",
@@ -7,17 +7,17 @@ PROP = dict(
             "goroutine schedules are free-running (GOMAXPROCS 1, 2, 4 and all cores; common start barrier; 1..50 repetitions, thorough 200): no yield hook inside Context.DecodeTypeValue was needed to observe the def->ref rebinding window; at GOMAXPROCS=1 that window is practically never hit",
             "only well-formed type values are fed to LookupByValue/DecodeTypeValue (truncated or malformed bytes belong to C11)",
         ],
-        level_text="Sampled: rapid-generated histories (state-machine style, JSON-replayable) of constructor lookups, lookups by serialized value, translations, decodes, typedef queries and mapper calls; every result and, after every step, every type known to the model is checked for pointer/id canonicity and canonical serialization; concurrent histories additionally under the race detector in the thorough tier.",
+        level_text="Exploration: rapid-generated histories (state-machine style, JSON-replayable) of constructor lookups, lookups by serialized value, translations, decodes, typedef queries and mapper calls; every result and, after every step, every type known to the model is checked for pointer/id canonicity and canonical serialization; concurrent histories additionally under the race detector in the thorough tier.",
         level_note="Trusted: the harness's own normal form/serializer/parser (cross-checked against EncodeTypeValue on every type). Not covered: Context.Reset, MapperLookupCache, TypeVectorTable, malformed type values, adversarial schedules beyond what free-running goroutines produce.",
         technique="stateful property-based testing (rapid) against a structural model; concurrent variant with -race in the thorough tier",
         race_thorough=True,
         env=dict(GORACE="log_path=racelog"),
         tests=[
-            dict(name="TestHistory", quick=(6, 1000), thorough=(16, 10000)),
-            dict(name="TestConcurrent", quick=(4, 500), thorough=(16, 2500)),
-            dict(name="TestConcurrentP1", gomaxprocs=1, quick=(1, 400), thorough=(4, 2500)),
-            dict(name="TestConcurrentP2", gomaxprocs=2, quick=(1, 400), thorough=(4, 2500)),
-            dict(name="TestConcurrentP4", gomaxprocs=4, quick=(1, 400), thorough=(4, 2500)),
-            dict(name="TestNamedChainUnion", quick=(1, 1500), thorough=(4, 10000)),
+            dict(name="TestHistory", quick=(6, 1500), thorough=(16, 2500)),
+            dict(name="TestConcurrent", quick=(4, 800), thorough=(8, 2000)),
+            dict(name="TestConcurrentP1", gomaxprocs=1, quick=(1, 400), thorough=(2, 1500)),
+            dict(name="TestConcurrentP2", gomaxprocs=2, quick=(1, 400), thorough=(2, 1500)),
+            dict(name="TestConcurrentP4", gomaxprocs=4, quick=(1, 400), thorough=(2, 1500)),
+            dict(name="TestNamedChainUnion", quick=(1, 1500), thorough=(2, 6000)),
         ],
 )
